@@ -294,6 +294,14 @@ crypt_gensalt_rn (const char *prefix, unsigned long count,
       return 0;
     }
 
+  /* A negative length would be converted to an enormous size_t below
+     and the algorithm modules would read far beyond RBYTES.  */
+  if (rbytes && nrbytes < 0)
+    {
+      errno = EINVAL;
+      return 0;
+    }
+
   char internal_rbytes[UCHAR_MAX] = "\0";
   /* typeof (internal_nrbytes) == typeof (h->nrbytes).  */
   unsigned char internal_nrbytes = 0;
